@@ -7,6 +7,7 @@
   ids, settled and unsettled, terminal, non-terminal and absent states, ids around 2^32).
 -/
 import Theorems.Lemmas.SettleKnown
+import Theorems.Dispose
 
 namespace Amqp.Settle
 open Amqp Amqp.Gen.Settle
